@@ -54,7 +54,7 @@ def candidates_deficient(psi, m, multiplier):
     """Classifier for known finding F11: do the initial candidate columns of the cross approximation (the first
     multiplier*rank column multi-indices, as documented for __hocur_first_col_inds) fail to span some unfolding?"""
     n = list(psi.shape)
-    ranks = [1] + [min(m, m)] * (len(n) - 1) + [1]
+    ranks = [1] + [min(m, n[-1])] * (len(n) - 1) + [1]
     col_inds = [None]
     col_inds.insert(0, [[j] for j in range(min(multiplier * ranks[-2], n[-1]))])
     for i in range(len(n) - 3, -1, -1):
